@@ -15,7 +15,8 @@ RULE = ("S-syn listings with planted runs of identical instructions and repeated
         "stratum (a repeated group around one repeated element, any-order groups with times whose members have variable length), judged by R-dsl. Two oracles per execution: (1) R-dsl differential on found / leftmost start / hit windows; "
         "(2) model-free twin: the same rule with every top-level repeated element written out n times (or as an $or of the "
         "written-out lengths when max-min<=3), executed on the real code and compared on verdict and first address. "
-        "Non-trivial = model finds the rule or the case is one mutation from a found case; distinct = (rule, listing).")
+        "Non-trivial = model finds the rule or the case is one mutation from a found case; distinct = (rule, listing). "
+        "The bounds grid also hands counts and bounds over as macro arguments.")
 FLOOR = {"quick": 300, "thorough": 4000}
 ANCHOR_HINTS = ["time_type_builder", "pattern_node_builder", "node_branch_root", "mnemonic_and_operand"]
 REQUIRED_EVENTS = ["hits_located", "twin_compared", "bounds_grid_cells", "nested_times_cells"]
